@@ -296,6 +296,24 @@ func runC02_14(c *core.Ctx) {
 			loopVar types.Object
 		}
 		var cuts []cut
+		// the value variable of `for i, b := range X` stands for X[i] as long as the body does not assign it
+		rangeAlias := map[types.Object]string{}
+		ast.Inspect(f.Decl.Body, func(n ast.Node) bool {
+			if rs, ok := n.(*ast.RangeStmt); ok && rs.Key != nil && rs.Value != nil && rs.Tok == token.DEFINE {
+				if vo, ok := flow.ObjOf(f.Info, rs.Value).(*types.Var); ok && flow.ObjOf(f.Info, rs.Key) != nil && assignCount(f, vo) == 2 {
+					rangeAlias[vo] = exprStr(rs.X) + "[" + exprStr(rs.Key) + "]"
+				}
+			}
+			return true
+		})
+		exprStr := func(e ast.Expr) string {
+			if o := flow.ObjOf(f.Info, e); o != nil {
+				if s, ok := rangeAlias[o]; ok {
+					return s
+				}
+			}
+			return exprStr(e)
+		}
 		ast.Inspect(f.Decl.Body, func(n ast.Node) bool {
 			as, ok := n.(*ast.AssignStmt)
 			if !ok || len(as.Lhs) != 1 || len(as.Rhs) != 1 {
